@@ -52,7 +52,12 @@ var pathPrefix = regexp.MustCompile(`([A-Za-z0-9_.\-]+/)+`)
 
 func shortKey(s string) string { return pathPrefix.ReplaceAllString(s, "") }
 
-func funcKey(fn *ssa.Function) string { return shortKey(fn.String()) }
+func funcKey(fn *ssa.Function) string {
+	if fn.Name() == "init" && fn.Parent() == nil && fn.Pkg != nil && strings.HasPrefix(fn.Synthetic, "package initializer") {
+		return fn.Pkg.Pkg.Path() + ".init"
+	}
+	return shortKey(fn.String())
+}
 
 func methodKey(m *types.Func) string { return shortKey(m.FullName()) }
 
